@@ -1,7 +1,7 @@
 (* C15, converse direction, the file level: every text the parser accepts is the print of a concrete syntax tree that
    erases to the parsed document -- and that tree is well-formed unless it lies in the (decidable) exclusion [outside]. *)
 From PVIdl Require Import Comb Ast Parser Print Proofs.Total Proofs.RoundTok Proofs.RoundPath Proofs.RoundAnn Proofs.RoundTy
-  Proofs.RoundKit Proofs.RoundNum Proofs.RoundConst Proofs.RoundDecl Proofs.RoundField Proofs.RoundStruct Proofs.RoundFn Proofs.RoundFile
+  Proofs.RoundKit Proofs.Lex Proofs.RoundNum Proofs.RoundConst Proofs.RoundDecl Proofs.RoundField Proofs.RoundStruct Proofs.RoundFn Proofs.RoundFile
   Proofs.InvKit Proofs.InvTok Proofs.InvTy Proofs.InvNum Proofs.InvConst Proofs.InvDecl Proofs.InvItems.
 From Coq Require Import ZifyN ZifyNat ZifyBool.
 From Coq Require String.
@@ -12,7 +12,7 @@ Open Scope nat_scope.
 Fixpoint ok_items (l : list (citem * blank)) : bool :=
   match l with
   | [] => true
-  | (it, b) :: l' => ok_item it && (is_nil l' || negb (is_const it && item_ends_word it && is_nil b)) && ok_items l'
+  | (it, b) :: l' => ok_item it && ok_items l'
   end.
 Definition outside (c : cfile) : bool := negb (ok_items (fl_items c)).
 
@@ -85,15 +85,24 @@ Proof.
     assert (A1 : negb (item_open it) || is_nil b = true).
     { destruct (item_open it) eqn:Eo; [|reflexivity]. rewrite (Hopb eq_refl). reflexivity. }
     rewrite A1. cbn [andb].
-    destruct (drop_lead es) as [|x l'] eqn:El; [reflexivity|]. cbn [is_nil orb] in *.
-    destruct (item_ends_word it) eqn:Ew; [|reflexivity]. destruct b as [|a0 b]; [|reflexivity]. cbn [is_nil andb negb].
-    exfalso. destruct (is_const it) eqn:Ec; [cbn in W0; discriminate|].
-    specialize (Hnid eq_refl eq_refl). cbn [pr_blank] in Hnid.
+    destruct (drop_lead es) as [|[it' b'] l'] eqn:El; [reflexivity|]. cbn [is_nil orb] in *.
+    destruct b as [|a0 b]; [|reflexivity]. cbn [is_nil negb orb]. unfold item_glue.
+    destruct (item_ends_word it) eqn:Ew; [|reflexivity]. cbn [negb orb].
+    specialize (Hnid eq_refl). cbn [pr_blank] in Hnid.
     (* the next item begins with a letter *)
     assert (Hne : es <> []) by (intros ->; discriminate El).
-    destruct (Hd' Hne) as [c0 [rest [Ec0 Hc0]]]. rewrite Ec0 in Hnid. unfold nid in Hnid. cbn [hd_sat] in Hnid.
+    destruct (Hd' Hne) as [c0 [rest [Ec0 Hc0]]].
     assert (Hi : identch c0 = true) by (unfold identch, is_alnum, is_alpha in *; now rewrite Hc0).
-    rewrite Hi in Hnid. discriminate.
+    assert (Hfalse : nid R = true -> False).
+    { intros Hx. rewrite Ec0 in Hx. unfold nid in Hx. cbn [hd_sat] in Hx. rewrite Hi in Hx. discriminate. }
+    destruct it as [? ? ?|? ? ?|?|?|c|?|? ? ?|?]; try (exfalso; exact (Hfalse Hnid)).
+    (* a constant whose value is directly followed by the keyword of the next item *)
+    specialize (Wr ltac:(assumption)). cbn [wf_items] in Wr. bsplit Wr.
+    destruct (item_kw_split _ it' (pr_blank b' (pr_items l' [])) ltac:(eassumption)) as [bb [X' [EX [Wbb Nbb]]]].
+    assert (ER : R = item_word it' ++ pr_blank bb X') by (unfold R; cbn [pr_items]; exact EX).
+    assert (LX : lstopk (pr_blank bb X') = true).
+    { unfold lstopk. apply blank_then; [exact Wbb|exact lstopc_bs|intros ->; contradiction]. }
+    rewrite ER in Hnid. now rewrite (cont_ok_local (ck_val c) (item_word it') _ LX) in Hnid.
 Qed.
 
 Theorem file_inv s doc : p_file lf df s = POk [] doc ->
